@@ -103,6 +103,15 @@ impl From<Vec<Expr>> for Array {
     }
 }
 
+#[cfg(vrl_verif)]
+impl Array {
+    /// verification hook: the element expressions.
+    #[must_use]
+    pub fn verif_inner(&self) -> &[Expr] {
+        &self.inner
+    }
+}
+
 #[cfg(test)]
 mod tests {
     use crate::value::kind::Collection;
